@@ -141,9 +141,9 @@ def grep_forbidden():
     return hits
 
 
-def run_chunk(prop, seed, n_ops, workdir, replay=None, driver_args=(), rtol=1e-12):
+def run_chunk(prop, seed, n_ops, workdir, replay=None, driver_args=(), rtol=1e-12, py_flags=()):
     os.makedirs(workdir, exist_ok=True)
-    cmd = [PY, os.path.join(HERE, "runner.py"), prop, str(seed), str(n_ops), workdir]
+    cmd = [PY] + list(py_flags) + [os.path.join(HERE, "runner.py"), prop, str(seed), str(n_ops), workdir]
     if replay:
         cmd += ["--replay", replay]
     rc, out = sh(cmd, timeout=3000)
@@ -307,9 +307,14 @@ def main():
             for c in range(cfg["chunks"]):
                 jobs.append((seed * 1000 + c, cfg["ops"] * (mult if c < 4 else 1),
                              os.path.join(workroot, "chunk%d" % c), None))
-        with ThreadPoolExecutor(max_workers=min(16, len(jobs) or 1)) as ex:
+        modes = list(getattr(mod, "MODES", [{"py": [], "drv": []}]))
+        with ThreadPoolExecutor(max_workers=min(16, len(jobs) * len(modes) or 1)) as ex:
             rtol = float(getattr(mod, "RTOL", 1e-12))
-            futs = [ex.submit(run_chunk, prop, s, n, wd, rp, driver_args, rtol) for s, n, wd, rp in jobs]
+            futs = []
+            for mi, mode in enumerate(modes):
+                for s, n, wd, rp in jobs:
+                    futs.append(ex.submit(run_chunk, prop, s, n, wd + ("-m%d" % mi if mi else ""), rp,
+                                          tuple(driver_args) + tuple(mode["drv"]), rtol, tuple(mode["py"])))
             chunks = [f.result() for f in futs]
     elif hasattr(mod, "generate") and not driver_ok:
         problems.append(("driver", "model driver could not be built"))
